@@ -189,25 +189,10 @@ theorem C17_parse_error_column (fuel : Nat) (s s' : Mml.MmlState) (msg : String)
       r.column ≤ s.inp.lb.buf.length + 1 :=
   DiagCol.track_error_command fuel s s' msg r hc h
 
-/-- is this outcome the `InputError(msg, ref)`? (for the examples) -/
-def errIs {α : Type} (x : Mml.Res α) (msg : String) (ref : Ref) : Bool :=
-  match x with
-  | .err (.input m r) _ => m == msg && r == ref
-  | _ => false
-
-theorem errIs_spec {α : Type} (x : Mml.Res α) (msg : String) (ref : Ref) (h : errIs x msg ref = true) :
-    ∃ s', x = .err (.input msg ref) s' := by
-  unfold errIs at h
-  split at h
-  · simp only [Bool.and_eq_true, beq_iff_eq] at h
-    obtain ⟨rfl, rfl⟩ := h
-    exact ⟨_, rfl⟩
-  · cases h
-
 /-- `A c  o` on line 3, read from column 1: the failing round is the third one (`o` at column 5);
 "missing parameter" is raised at column 6 = the end of the line -/
 example : ∃ s', MmlFix.parseMmlTrackF 8 { inp := { lb := { buf := [65, 32, 99, 32, 32, 111], column := 1 }, line := 3 } } =
-    .err (.input "missing parameter" { line := 3, column := 6 }) s' := errIs_spec _ _ _ (by decide +kernel)
+    .err (.input "missing parameter" { line := 3, column := 6 }) s' := DiagCol.errIs_spec _ _ _ (by decide +kernel)
 
 /-- every `parse_error` raised while a line is read (`read_line`: track list, tag key, every track of
 a multi-track line, conditional blocks left open) is on that line at a 0-based column of at most
@@ -224,7 +209,7 @@ theorem C17_file_error_position (ls : List (List Nat)) (n : Nat) (s s' : Mml.Mml
 
 /-- `AB {c/_{C}`: track B leaves its conditional block open; the error is two past the end (0-based 11) -/
 example : ∃ s', MmlFix.readLines 0 [[65, 66, 32, 123, 99, 47, 95, 123, 67, 125]] Mml.MmlState.init =
-    .err (.input "unterminated conditional block" { line := 0, column := 11 }) s' := errIs_spec _ _ _ (by decide +kernel)
+    .err (.input "unterminated conditional block" { line := 0, column := 11 }) s' := DiagCol.errIs_spec _ _ _ (by decide +kernel)
 
 /-- `expect_parameter()` (the parameter of `o Q q C s * @ K v V p E M P G D t T % _ k \=`): its only
 error is "missing parameter", raised exactly where `get_num` gave up — at the first non-blank
@@ -249,7 +234,7 @@ theorem C17_illegal_duration_column (s s' : Mml.MmlState) (hs : Mml.Sane s) (e :
 
 /-- `c:-20 d` read behind the `c`: the error is behind `:-20` -/
 example : ∃ s', Mml.readDuration { inp := { lb := { buf := [99, 58, 45, 50, 48, 32, 100], column := 1 }, line := 0 } } =
-    .err (.input "illegal duration" { line := 0, column := 5 }) s' := errIs_spec _ _ _ (by decide +kernel)
+    .err (.input "illegal duration" { line := 0, column := 5 }) s' := DiagCol.errIs_spec _ _ _ (by decide +kernel)
 
 /-! ### converter -/
 
